@@ -1,0 +1,40 @@
+//go:build verif
+
+// Contracts for the deductive verifier in /verif (comment-only; compiled only with -tags verif).
+package mt
+
+// number of tokens in the first n collections of a genesis state (definitional axioms of that sum)
+//@ define MTC(cols, n) = uf("mt_count", cols, n)
+//@ axiom mtc0(cols)
+//@   ensures MTC(cols, 0) == 0
+//@ axiom mtcS(cols, n)
+//@   ensures n >= 0 ==> MTC(cols, n + 1) == MTC(cols, n) + len(cols[n].Mts)
+//@ axiom mtcMono(cols, j, n)
+//@   ensures 0 <= j && j <= n ==> MTC(cols, j) <= MTC(cols, n)
+
+// Genesis import (C12, C15): every class and every token of every class is stored, and the id sequences continue after
+// everything that was imported - the next class number is one more than the number of classes, the next token number
+// one more than the number of tokens of ALL classes - so that an id generated later never collides with an imported one.
+//@ func InitGenesis
+//@   property C12, C15
+//@   requires forall j:Int :: 0 <= j && j < len(data.Collections) ==> !data.Collections[j].Denom.isnil
+//@   requires MTC(data.Collections, len(data.Collections)) < 4611686018427387904
+//@   uses mtc0(data.Collections)
+//@   uses mtcS(data.Collections, 0)
+//@   uses mtcMono(data.Collections, 0, 0)
+//@   modifies denoms, mts, supplies, balances, denomSeq, mtSeq
+//@   invariant #1 idx:  rangeindex >= 0 - 1 && rangeindex < len(data.Collections)
+//@   invariant #1 seq:  mtSequence == 1 + MTC(data.Collections, rangeindex + 1) && has(denomSeq) && get(denomSeq) == len(data.Collections) + 1
+//@   invariant #1 done: forall j:Int :: 0 <= j && j <= rangeindex ==> has(denoms, data.Collections[j].Denom.Id)
+//@   invariant #2 idx:  rangeindex_2 >= 0 - 1 && rangeindex_2 < len(c.Mts) && rangeindex_1 >= 0 - 1 && rangeindex_1 + 1 < len(data.Collections)
+//@   invariant #2 cur:  c == data.Collections[rangeindex_1 + 1]
+//@   invariant #2 seq:  mtSequence == 1 + MTC(data.Collections, rangeindex_1 + 1) + rangeindex_2 + 1 && has(denomSeq) && get(denomSeq) == len(data.Collections) + 1
+//@   invariant #2 done: (forall j:Int :: 0 <= j && j <= rangeindex_1 + 1 ==> has(denoms, data.Collections[j].Denom.Id))
+//@                      && (forall i:Int :: 0 <= i && i <= rangeindex_2 ==> has(mts, c.Denom.Id, c.Mts[i].Id))
+//@   invariant #3 idx:  rangeindex >= 0 - 1
+//@   invariant #4 idx:  rangeindex >= 0 - 1
+//@   invariant #5 idx:  rangeindex >= 0 - 1
+//@   ensures mt_sequence:    has(mtSeq) && get(mtSeq) == 1 + MTC(data.Collections, len(data.Collections))
+//@   ensures denom_sequence: has(denomSeq) && get(denomSeq) == len(data.Collections) + 1
+//@   ensures classes_stored: forall j:Int :: 0 <= j && j < len(data.Collections) ==> has(denoms, data.Collections[j].Denom.Id)
+//@ end
